@@ -817,6 +817,47 @@ func (c *FnCtx) evCall(x *eCall, env *evalEnv) *Val {
 			}
 			_, has := c.mapGet(c.state(env), m.T, m.S, ks)
 			return c.mk(boolT, has)
+		case "atexit", "passed", "athead":
+			// atexit(L, e): e evaluated in the state in which loop L was last left (within
+			// the current pass over the enclosing code); passed(L): that exit was taken;
+			// athead(L, e): e in the state at the head of loop L (start of the iteration)
+			var target *loopInfo
+			switch a := x.args[0].(type) {
+			case *eInt:
+				n, _ := strconv.Atoi(a.v)
+				for _, li := range c.loopOrd {
+					if li.ordinal == n {
+						target = li
+					}
+				}
+			case *eIdent:
+				target = c.loopOfVar(a.name)
+			}
+			if target == nil {
+				c.efail("%s(%s, ...): no such loop", id.name, exprText(x.args[0]))
+			}
+			var snap *State
+			if id.name == "athead" {
+				snap = c.ss().headSt[target]
+			} else {
+				snap = c.exitSt[target]
+			}
+			if snap == nil {
+				// the loop has not been left on any path leading here
+				if id.name == "passed" {
+					return c.mk(boolT, "false")
+				}
+				snap = c.state(env) // value irrelevant: to be guarded by passed(L)
+			}
+			if id.name == "passed" {
+				return c.mk(boolT, snap.pc)
+			}
+			if len(x.args) != 2 {
+				c.efail("%s(L, expr)", id.name)
+			}
+			n := *env
+			n.st = snap
+			return c.ev(x.args[1], &n)
 		case "iter":
 			var target *loopInfo
 			switch a := x.args[0].(type) {
